@@ -440,7 +440,9 @@ func c04Exec(j c04Job, p *c04Prep, ch vrt.Chooser, states *vrt.StateSet, trace b
 						res.stepErrs[errClass(err)]++
 					}
 					if out != "ok" && envLeft[pr.host] > 0 && s < j.K-1 {
-						vrt.Sleep(time.Second) // polling an unchanged source again would repeat the same step
+						// polling an unchanged source again would repeat the same step: wait for the source's reorg
+						host := pr.host
+						w.V.Point("wait-source", false, func() bool { return envLeft[host] == 0 })
 					}
 				}
 			})
